@@ -195,6 +195,13 @@ def main(pid, tier, seed):
             m = meta[t['tid']]
             failing = list(v[1]) if isinstance(v[1], (tuple, list)) else [v[1]]
             verdict.violation(dict(m, clause='+'.join(failing), failing=failing), 'clauses %s; %s' % (failing, core.short(m, 400)))
+    def corrupt(t):
+        if t['kind'] == 'seq' and t['plain']:
+            t['variants'][0] = t['variants'][0] + [t['plain'][0]]      # one encoding yields an extra password
+            return t
+        return None
+    accepted = [t for t in traces if verdicts[t['tid']][0] == 'ACCEPT']
+    selftest = core.binding_selftest('TrLine.tla', accepted, corrupt)
     rc, n_viol, n_known = verdict.finish()
     distinct = len({json.dumps({k: v for k, v in t.items() if k != 'tid'}, sort_keys=True) for t in traces
                     if t['kind'] == 'same' or len(t['plain']) + len(t['meant']) > 0})
@@ -207,7 +214,7 @@ def main(pid, tier, seed):
                    'count-prefixed / count+hex / mixed files, each read by the real TrainerFileInput (three passes); same trace = two whole '
                    'real trainings whose rulesets are compared file by file',
            'single_record_files_of_model_space': len(strs) * 2, 'files': n_files, 'trainings_compared': n_same * 3,
-           'trace_validation': st, 'exhaustive': False, 'known_findings_reproduced': n_known,
+           'trace_validation': st, 'exhaustive': False, 'known_findings_reproduced': n_known, 'binding_selftest': selftest,
            'violation_histogram': verdict.histogram()}
     core.write_evidence(pid, tier, seed, 'model_checking', cov, time.time() - t0, violations=n_viol,
                         assumptions=['TLC', 'the meaning of a record (valid / skipped) is fixed by construction of the generated files',
